@@ -1,5 +1,5 @@
 (* C04 — the current action is scoped to its block and always restored on exit. *)
-From Coq Require Import List.
+From Coq Require Import List PArith.
 Require Import Eliot.Base.Level Eliot.Model.Core Eliot.Model.Prog Eliot.Proofs.CoreBasics Eliot.Proofs.CtxFrame Eliot.Proofs.CtxRestore.
 Import ListNotations.
 
@@ -64,3 +64,33 @@ Theorem C04_restore_rewith_refuted :
   exists cfg p c s, cur (run cfg (fst (compile c p)) s) c <> cur s c.
 Proof. exact CtxRestoreExamples.C04_restore_rewith_refuted. Qed.
 Print Assumptions C04_restore_rewith_refuted.
+
+(* ---- where things attach (Proofs/Attribution.v) ---- *)
+Require Import Eliot.Proofs.Attribution.
+
+(* start_task always begins a new tree whatever the context: fresh uuid, root level *)
+Theorem C04_task_fresh :
+  forall cfg c s h ty fs sers,
+    start_action cfg c s h true ty fs sers =
+    start_message cfg c (set_heap (fst (fresh_uuid s)) h (mkAction (next_uuid s) [] 0 false [] ty sers None)) h fs.
+Proof. exact start_task_ignores_context. Qed.
+Print Assumptions C04_task_fresh.
+
+(* a message logged with no current action forms its own one-message task *)
+Theorem C04_orphan_message :
+  forall s c mt fs, cur s c = None ->
+    snd (stamp_here s c mt fs) = stamp (next_uuid s) [1%positive] mt fs /\
+    next_uuid (fst (stamp_here s c mt fs)) = S (next_uuid s).
+Proof. exact orphan_message_stamp. Qed.
+Print Assumptions C04_orphan_message.
+
+(* actions started inside a block become children of the current action: next position, same uuid *)
+Theorem C04_child_position :
+  forall cfg c s h p pa ty fs sers,
+    cur s c = Some p -> alookup p (heap s) = Some pa ->
+    start_action cfg c s h false ty fs sers =
+    start_message cfg c
+      (set_heap (fst (take_level s p)) h
+         (mkAction (a_uuid pa) (a_level pa ++ [Pos.of_nat (S (a_last pa))]) 0 false [] ty sers None)) h fs.
+Proof. exact child_action_position. Qed.
+Print Assumptions C04_child_position.
